@@ -24,6 +24,22 @@ def norm(node):
         return ast.dump(node)
 
 
+def astcopy(n):
+    """Deep copy of an AST (fields and positions only: never follows the `_parent` back-pointers the model adds)."""
+    if isinstance(n, ast.AST):
+        new = n.__class__()
+        for fld in n._fields:
+            if hasattr(n, fld):
+                setattr(new, fld, astcopy(getattr(n, fld)))
+        for a in n._attributes:
+            if hasattr(n, a):
+                setattr(new, a, getattr(n, a))
+        return new
+    if isinstance(n, list):
+        return [astcopy(x) for x in n]
+    return n
+
+
 def short(node, n=110):
     t = ' '.join(norm(node).split())
     return t if len(t) <= n else t[:n - 3] + '...'
